@@ -312,9 +312,9 @@ POOL_NAMES = ['phi0', 'phi1', 'x0', 'ex', 'app', 'esub', 'neg', 'and', 'bot', 'm
 def pool(n):
     from . import bridge
     P = bridge.P
-    full = [P.MetaVar(0), P.MetaVar(1), P.EVar(0), P.Exists(0, P.EVar(0)), P.App(P.Symbol('s'), P.EVar(1)),
+    full = [P.MetaVar(0), P.MetaVar(1), P.MetaVar(0, e_fresh=(P.EVar(1),)), P.EVar(0), P.Exists(0, P.EVar(0)),
             P.ESubst(P.MetaVar(1), P.EVar(0), P.EVar(1)), P.neg(P.MetaVar(0)), P._and(P.MetaVar(0), P.EVar(1)), P.bot(),
-            P.MetaVar(0, e_fresh=(P.EVar(1),)), P.MetaVar(2)]
+            P.App(P.Symbol('s'), P.EVar(1)), P.MetaVar(2), P.MetaVar(1, s_fresh=(P.SVar(0),))]
     return full[:n]
 
 
